@@ -40,5 +40,10 @@ CHECKS = {
                 text="Held on the recorded histories: no audit ever saw two live calendar resources with one UID, every no-uid-conflict refusal coincided with another live holder of "
                      "that UID, refused writes changed nothing, and UIDs were reusable right after their holder was deleted or changed UID (incl. after delete+recreate of the collection and restarts).",
                 note="Trusted: vf/icl.py UID extraction; generated objects carry one UID per resource."),
+    "C14": dict(level="exploration", design="DESIGN.md section 4 C14",
+                technique="runtime monitoring: generated valid bodies and enumerated invalid classes PUT through both front ends; independent content-line parser + XML well-formedness + ETag/sync-token/commit-count probes around a re-upload of the served bytes",
+                text="Held on the generated inputs: every member of the statement's invalid classes was refused without creating a member or moving the collection tag; every accepted "
+                     "valid body was served property-for-property equal (own parser) and re-uploading the served bytes changed neither ETag, sync-token nor commit count.",
+                note="Trusted: vf/icl.py as definition of 'parseable'; classes outside the statement (broken nesting repaired by the lenient parser) are judged by observable consequences only."),
 }
 NOT_APPLICABLE = {}
